@@ -89,7 +89,12 @@ class Addr:
         """
         callback done via callLater
         """
-        del self.map.addr[self.name]
+        if self.expiry is not None and self.expiry.active():
+            # (dropped early, e.g. by an <error> mapping)
+            self.expiry.cancel()
+        # we are registered under our name and under the address
+        for key in [k for (k, v) in self.map.addr.items() if v is self]:
+            del self.map.addr[key]
         self.map.notify("addrmap_expired", *[self.name], **{})
 
 
